@@ -73,14 +73,14 @@ type crafted struct {
 // not-executed-giant-declaration). Reason: on this machine the first touch of a
 // page costs ~0.2 ms (256 MiB = 15 s measured), so a decoder that preallocates
 // and zeroes, or copies, a declared gigabyte stalls a worker for minutes. The
-// code path of a preallocating decoder is the same for 256 KiB as for 1 GiB, and
-// 256 KiB (the crafted "large" length) declared in a 20-byte input is already 4x
+// code path of a preallocating decoder is the same for 1 MiB as for 1 GiB, and
+// 1 MiB-3 (the crafted "large" length) declared in a 20-byte input is already 8x
 // beyond the allocation bound.
 const giantDecl = 1 << 20
 
 // craftedCompacts lists the replacements tried for one compact integer of value
 // v: the same value in every wider (non-canonical) mode, other values at the
-// mode boundaries, a declared 256 KiB, and the unallocatable 2^62 / 2^64-1.
+// mode boundaries, a declared 1 MiB-3, and the unallocatable 2^62 / 2^64-1.
 func craftedCompacts(v uint64) []crafted {
 	var out []crafted
 	add := func(n string, b []byte) { out = append(out, crafted{n, b}) }
@@ -103,7 +103,7 @@ func craftedCompacts(v uint64) []crafted {
 	add("noncanon-big9-leading-zero", cBig(v, 9))
 	add("noncanon-big16-leading-zero", cBig(v, 16))
 	// other values at the mode boundaries, each in its canonical mode
-	for _, o := range []uint64{0, 1, 63, 64, 16383, 16384, v + 1, v - 1, 1<<18 + 5} {
+	for _, o := range []uint64{0, 1, 63, 64, 16383, 16384, v + 1, v - 1, 1<<20 - 3} {
 		if o != v && o < 1<<62 {
 			add(fmt.Sprintf("value-%d", o), cCanonical(o))
 		}
